@@ -31,7 +31,7 @@ def run(ctx):
     # pubkey-to-offset index (epoch with thousands of addresses; address index built by the real `index gsfa`)
     if not ctx.replay:
         from props.c10 import gsfa_fast_overlay
-        ov = ctx.overlay(main_files=["helpers_test.go", "arch_test.go", "rpc_test.go", "c07_test.go"], replace=gsfa_fast_overlay(ctx))
+        ov = ctx.overlay(main_files=["helpers_test.go", "arch_test.go", "rpc_test.go", "c07_test.go", "c10_test.go"], replace=gsfa_fast_overlay(ctx))
         bm = ctx.go_build(".", ov, name="main_c03addr")
         aobs = ctx.go_run(bm, "^TestVerifC03Address$", out="obs_addr.ndjson", timeout_s=3400)
         arej = ctx.r4_judge(["GsfaPagingAbs", "Trace_GsfaPaging"], "Trace_GsfaPaging", aobs, timeout_s=1200)
